@@ -649,12 +649,43 @@ func cmdReplay(args []string) int {
 			pkg = name
 		}
 	}
+	// schedule vectors (C16) need the instrumented build; footprint vectors
+	// (C15) the race detector
+	var raw map[string]interface{}
+	json.Unmarshal(data, &raw)
+	if _, isSched := raw["schedule"]; isSched {
+		n := newSchedRunner(*repo)
+		if n == nil {
+			return 2
+		}
+		defer n.close()
+		bin, err := n.bin("wire")
+		if err != nil {
+			fmt.Fprintln(os.Stderr, err)
+			return 2
+		}
+		abs, _ := filepath.Abs(fs.Arg(0))
+		ro := runVectorFile(bin, *repo, abs)
+		fmt.Printf("replay schedule %v\nstatus: %s %v\n%s\n", raw["label"], ro.Status, ro.Labels, ro.Output)
+		if ro.Status == "fail" || ro.Status == "panic" || ro.Status == "timeout" {
+			return 1
+		}
+		return 0
+	}
 	n, err := newNativeRunner(*repo)
 	if err != nil {
 		fmt.Fprintln(os.Stderr, err)
 		return 2
 	}
 	defer n.close()
+	if strings.HasPrefix(vec.Label, "no-unsynchronised-shared-access") {
+		ro := n.runRace(pkg, &vec)
+		fmt.Printf("replay %s under the race detector label=%q\nstatus: %s\n%s\n", vec.Entry, vec.Label, ro.Status, ro.Output)
+		if ro.Status == "race" {
+			return 1
+		}
+		return 0
+	}
 	ro := n.run(pkg, &vec)
 	fmt.Printf("replay %s %s label=%q input=[%s]\nstatus: %s %v\n%s\n", vec.Entry, vec.Kind, vec.Label, fmtVec(&vec), ro.Status, ro.Labels, ro.Output)
 	if ro.Status == "fail" || ro.Status == "panic" || ro.Status == "timeout" {
